@@ -435,6 +435,11 @@ pub fn run(p: &HandoverPlan, log: bool) -> (RunReport, String) {
             if r.t_softstop_sent == 0 { return false; }
             let id = p.clients[ci].requests[ri].id;
             let on_old = c.rec.t_connect < r.t_b_active.max(r.t_softstop_sent);
+            // a request the client was still writing when the old worker closed the connection, that never reached the
+            // backend and got no byte of answer, had not been taken on (its head may not even have been complete)
+            let seen_by_backend = ho.backends[0][0].iter().any(|b| b.requests.iter().chain(b.partial.iter()).any(|q| q.sim_id == Some(id)));
+            let answered = c.responses.len() > ri || c.partial.is_some();
+            if on_old && !c.rec.sent_done.iter().any(|(i, _)| *i == id) && !seen_by_backend && !answered { return true; }
             match c.rec.sent_start.iter().find(|(i, _)| *i == id) {
                 Some((_, t)) => on_old && *t >= r.t_return_sent && ri > 0,
                 None => on_old && ri > 0, // never sent: the connection was gone before
